@@ -17,6 +17,7 @@ import (
 	"go/token"
 	"go/types"
 	"os"
+	"path/filepath"
 	"sort"
 	"strings"
 
@@ -366,8 +367,11 @@ func main() {
 	prog.Build()
 	var w bytes.Buffer
 	w.WriteString("-- GENERATED by harness/ssagen from the repository's working tree (go/ssa form of strcase.go and bytcase/bytcase.go).  Do not edit.\n")
-	w.WriteString("import SC.Model.GoSsaSyntax\nset_option maxRecDepth 100000\nnamespace Gen.Src\nopen GoSsa GoSsa.Instr GoSsa.Term\n\n")
+	w.WriteString("-- One module per Go function (SC/Gen/Src/<pkg>_<function>.lean) so that a proof about one function is re-checked only when that function's program text changes.\n")
+	var imports bytes.Buffer
+	var lists bytes.Buffer
 	total := 0
+	perFn := map[string][]byte{}
 	for i, p := range spkgs {
 		if p == nil {
 			continue
@@ -405,16 +409,46 @@ func main() {
 				continue
 			}
 			seen[fn] = true
-			id, n := emitFn(&w, ns, fn)
+			var fw bytes.Buffer
+			fw.WriteString("-- GENERATED by harness/ssagen from the repository's working tree.  Do not edit.\n")
+			fw.WriteString("import SC.Model.GoSsaSyntax\nset_option maxRecDepth 100000\nnamespace Gen.Src\nopen GoSsa GoSsa.Instr GoSsa.Term\n\n")
+			id, n := emitFn(&fw, ns, fn)
+			fw.WriteString("end Gen.Src\n")
+			perFn[id] = fw.Bytes()
+			fmt.Fprintf(&imports, "import SC.Gen.Src.%s\n", id)
 			ids = append(ids, id)
 			total += n
 		}
-		fmt.Fprintf(&w, "def %s : Prog := [%s]\n\n", ns, strings.Join(ids, ", "))
+		fmt.Fprintf(&lists, "def %s : Prog := [%s]\n\n", ns, strings.Join(ids, ", "))
 	}
+	w.Write(imports.Bytes())
+	w.WriteString("namespace Gen.Src\nopen GoSsa\n\n")
+	w.Write(lists.Bytes())
 	w.WriteString("end Gen.Src\n")
 	if *out == "" {
 		os.Stdout.Write(w.Bytes())
 		return
+	}
+	dir := filepath.Join(filepath.Dir(*out), "Src")
+	if err := os.MkdirAll(dir, 0o755); err != nil {
+		die("%v", err)
+	}
+	keep := map[string]bool{}
+	for id, data := range perFn {
+		f := filepath.Join(dir, id+".lean")
+		keep[id+".lean"] = true
+		if old, err := os.ReadFile(f); err != nil || !bytes.Equal(old, data) {
+			if err := os.WriteFile(f, data, 0o644); err != nil {
+				die("%v", err)
+			}
+		}
+	}
+	if ents, err := os.ReadDir(dir); err == nil {
+		for _, e := range ents {
+			if !keep[e.Name()] {
+				os.Remove(filepath.Join(dir, e.Name()))
+			}
+		}
 	}
 	old, err := os.ReadFile(*out)
 	if err != nil || !bytes.Equal(old, w.Bytes()) {
